@@ -27,12 +27,13 @@ PROP = "C13"
 DRIVER = "c13_parsers.c"
 REPO_SOURCES = ("src/proto/http.c",)
 VARIANTS = {
-    "gcc-O1-asu": dict(cc="gcc", san="asu", flags=()),
-    "clang-O1-asu": dict(cc="clang", san="asu", flags=()),
+    # -fsanitize-recover=address only matters in the driver's --fork mode (see c13_parsers.c)
+    "gcc-O1-asu": dict(cc="gcc", san="asu", flags=("-fsanitize-recover=address",)),
+    "clang-O1-asu": dict(cc="clang", san="asu", flags=("-fsanitize-recover=address",)),
 }
-CHUNK = 250
+CHUNK = 1000
 NWORK = common.NCPU
-QUOTA = {"quick": 200_000, "thorough": 5_000_000}
+QUOTA = {"quick": 320_000, "thorough": 5_000_000}
 FUZZ_RUNS = {"quick": 0, "thorough": 400_000}
 FUZZ_GROUPS = ("dns", "radius", "http", "sap_sdp", "rtp_ts_dhcp")
 
@@ -49,8 +50,13 @@ EXPECTED = ("no sanitizer report, no CPU-time alarm, and after a successful retu
 
 # run without in-process symbolisation (a sanitizer abort per hostile packet is
 # common on this tree); frames are symbolised here, once per distinct pc.
-ENV = {"ASAN_OPTIONS": common.SAN_ENV["ASAN_OPTIONS"].replace("symbolize=1", "symbolize=0"),
+ENV = {"ASAN_OPTIONS": common.SAN_ENV["ASAN_OPTIONS"].replace("symbolize=1", "symbolize=0") +
+       ":halt_on_error=0:suppress_equal_pcs=0:print_legend=0",
        "UBSAN_OPTIONS": common.SAN_ENV["UBSAN_OPTIONS"] + ":symbolize=0"}
+
+
+ENV_PLAIN = {"ASAN_OPTIONS": common.SAN_ENV["ASAN_OPTIONS"].replace("symbolize=1", "symbolize=0"),
+             "UBSAN_OPTIONS": ENV["UBSAN_OPTIONS"]}
 
 
 def build_spec(vname):
@@ -195,6 +201,42 @@ def observed_text(crash, frames):
     return txt
 
 
+_CRASH_MAGIC = b"\xff\xfeCRASH"
+_CASE_END = re.compile(rb"\nVERIF-CASE-END (\d+) status=(\d+)\n")
+
+
+def run_cases(exe, cases):
+    """Like common.run_cases but through the driver's --fork mode: one driver
+    process per chunk, one fork per sanitizer abort.  Falls back to the plain
+    protocol for whatever the fork server did not answer."""
+    if not cases:
+        return []
+    data = b"".join(common.pack_case(c) for c in cases)
+    try:
+        p = subprocess.run([exe, "--fork"], input=data, stdout=subprocess.PIPE, stderr=subprocess.PIPE,
+                           env=common.run_env(ENV), timeout=3600)
+        out, err = p.stdout, p.stderr
+    except subprocess.TimeoutExpired:
+        out, err = b"", b""
+    obs = common._parse_obs(out)[:len(cases)]
+    reports = {}
+    pos = 0
+    for m in _CASE_END.finditer(err):
+        reports[int(m.group(1))] = err[pos:m.start()]
+        pos = m.end()
+    res = []
+    for i, o in enumerate(obs):
+        if o[:7] == _CRASH_MAGIC and len(o) == 8:
+            rc = o[7]
+            text = reports.get(i, b"").decode("utf-8", "replace")
+            res.append(Crash(common.classify_crash(rc, text), text[-6000:], rc))
+        else:
+            res.append(o)
+    if len(res) < len(cases):
+        res.extend(common.run_cases(exe, cases[len(res):], env_extra=ENV_PLAIN))
+    return res
+
+
 def parse_obs(b):
     r = R(b)
     o = {"seen": r.u32(), "accept": r.u32(), "acc": r.u32(), "rcs": r.blob(), "fails": []}
@@ -234,7 +276,7 @@ def evaluate(part, vname, exe, label, kind, f, payload, r, widx, rerun_hang=True
     part_count(part, "cases." + label)
     if isinstance(r, Crash):
         if r.kind == "hang" and rerun_hang:
-            r2 = common.run_cases(exe, [payload], env_extra=ENV)[0]
+            r2 = run_cases(exe, [payload])[0]
             if not (isinstance(r2, Crash) and r2.kind == "hang"):
                 part["observations"]["hang-not-reproduced:" + label] = part["observations"].get("hang-not-reproduced:" + label, 0) + 1
                 return evaluate(part, vname, exe, label, kind, f, payload, r2, widx, False)
@@ -268,7 +310,7 @@ def run_chunk(part, builds, cases, widx):
     payloads = [gen.pack(label, f) for label, _k, f in cases]
     part_count(part, "packets", len(cases))
     for vname, exe in builds:
-        res = common.run_cases(exe, payloads, env_extra=ENV)
+        res = run_cases(exe, payloads)
         for (label, kind, f), payload, r in zip(cases, payloads, res):
             out = evaluate(part, vname, exe, label, kind, f, payload, r, widx)
             part["classes"].add((label, kind, out))
@@ -313,7 +355,7 @@ def _worker(job):
 # witness minimisation (ddmin over the message bytes, same key must reproduce)
 # ---------------------------------------------------------------------------
 def _case_key(exe, label, f):
-    r = common.run_cases(exe, [gen.pack(label, f)], env_extra=ENV)[0]
+    r = run_cases(exe, [gen.pack(label, f)])[0]
     return _result_key(r, label)
 
 
@@ -349,7 +391,7 @@ def _minimize_job(job):
             i += size
         cands = cands[:budget]
         budget -= len(cands)
-        res = common.run_cases(exe, [gen.pack(label, dict(f, msg=c)) for c in cands], env_extra=ENV)
+        res = run_cases(exe, [gen.pack(label, dict(f, msg=c)) for c in cands])
         hit = None
         for c, r in zip(cands, res):
             if _result_key(r, label) == key:
@@ -362,7 +404,7 @@ def _minimize_job(job):
             size //= 2
     if len(best) < len(f["msg"]):
         f2 = dict(f, msg=best)
-        r = common.run_cases(exe, [gen.pack(label, f2)], env_extra=ENV)[0]
+        r = run_cases(exe, [gen.pack(label, f2)])[0]
         if _result_key(r, label) == key:
             obs = observed_text(r, crash_key_ex(r, label)[2]) if isinstance(r, Crash) else w["observed"]
             w = dict(w, msg_hex=best.hex(), msg_len=len(best), payload_hex=gen.pack(label, f2).hex(),
@@ -458,7 +500,10 @@ def run(tier):
     builds = sorted(exes.items())
     quota = int(os.environ.get("VERIF_C13_QUOTA", QUOTA[tier]))
     per = max(quota // NWORK, 1)
+    import time
+    t0 = time.time()
     parts = list(common.parallel(_worker, [(w, per, builds) for w in range(NWORK)]))
+    report.extra["phase_s.generated_cases"] = round(time.time() - t0, 1)
     runs = int(os.environ.get("VERIF_C13_FUZZ_RUNS", FUZZ_RUNS[tier]))
     if runs > 0:
         parts += list(common.parallel(_fuzz_job, [(g, runs, builds) for g in range(len(FUZZ_GROUPS))]))
@@ -476,7 +521,9 @@ def run(tier):
     budget = 150 if tier == "quick" else 500
     jobs = [(key, w, exe_of[w["variant"]], budget) for key, (sz, w) in sorted(best.items())
             if not key.startswith("hang:")]
+    t0 = time.time()
     minimized = dict(common.parallel(_minimize_job, jobs)) if jobs else {}
+    report.extra["phase_s.minimise_witnesses"] = round(time.time() - t0, 1)
     for key, (sz, w) in sorted(best.items()):
         w = minimized.get(key, w)
         w["calling_modes_seen"] = sorted(modes.get(key, ()))
